@@ -57,13 +57,43 @@ def executes_when(cfg, stmt, val):
     return True
 
 
+def canon_atom(text):
+    """(canonical text, polarity) of a comparison atom: every order comparison becomes `l <= r` or its negation, `!=` / `is not` / `not in`
+    become negated `==` / `is` / `in`, operands of `==` are sorted.   a > b -> (a <= b, False) ; a < b -> (b <= a, False) ; a >= b -> (b <= a, True)"""
+    try:
+        e = ast.parse(text, mode='eval').body
+    except SyntaxError:
+        return text, True
+    if isinstance(e, ast.Compare) and len(e.ops) == 1:
+        l, r, op = norm(e.left), norm(e.comparators[0]), e.ops[0]
+        if isinstance(op, ast.LtE): return '%s <= %s' % (l, r), True
+        if isinstance(op, ast.Gt): return '%s <= %s' % (l, r), False
+        if isinstance(op, ast.Lt): return '%s <= %s' % (r, l), False
+        if isinstance(op, ast.GtE): return '%s <= %s' % (r, l), True
+        if isinstance(op, (ast.Eq, ast.NotEq)):
+            a, b = sorted((l, r))
+            return '%s == %s' % (a, b), isinstance(op, ast.Eq)
+        if isinstance(op, (ast.Is, ast.IsNot)): return '%s is %s' % (l, r), isinstance(op, ast.Is)
+        if isinstance(op, (ast.In, ast.NotIn)): return '%s in %s' % (l, r), isinstance(op, ast.In)
+    return text, True
+
+
 def atom_valuation(mapping, assignment, resolver=None):
-    """mapping: normalised text -> (atom, polarity); assignment: atom -> bool"""
+    """mapping: normalised text -> (atom, polarity); assignment: atom -> bool.  Comparison atoms are matched up to canon_atom()."""
+    cmap = {}
+    for k, (a, pol) in mapping.items():
+        ck, cp = canon_atom(k)
+        cmap[ck] = (a, pol == cp)
+
     def val(text):
-        if text not in mapping:
+        if text in mapping:
+            a, pol = mapping[text]
+            return assignment[a] if pol else not assignment[a]
+        ck, cp = canon_atom(text)
+        if ck not in cmap:
             raise Incomplete('condition atom `%s` is not understood by this rule' % text)
-        a, pol = mapping[text]
-        return assignment[a] if pol else not assignment[a]
+        a, pol = cmap[ck]
+        return assignment[a] if (pol == cp) else not assignment[a]
     val.resolver = resolver
     return val
 
